@@ -212,6 +212,13 @@ func scenExactHalf(x *Ctx) {
 	w2 := x.WritesAsync(3, other[0], 2, 150*time.Millisecond)
 	w()
 	w2()
+	// a second leader can only appear if exactly half counts as a majority; if it does, both sides write
+	if l2 := x.C.WaitLeaderAmong(other, 4*x.ET()); l2 != "" {
+		x.Note("second leader %s on the other half", l2)
+		wa := x.WritesAsync(4, l2, 3, 300*time.Millisecond)
+		x.Writes(5, l, 3, 300*time.Millisecond)
+		wa()
+	}
 	if r.Intn(2) == 0 {
 		x.Step("crash leader %s", l)
 		x.C.Node(l).Crash("exact-half")
@@ -584,6 +591,11 @@ func scenStaleRound(x *Ctx) {
 		x.C.Net.ClearLinks()
 		x.C.Net.RemoveRule(quiet)
 		_ = w
+		// the isolated second leader must have noticed the new term before the final phase looks for "a leader among the others"
+		if !x.WaitFor(3*time.Second, func() bool { s := x.C.Node(l2).Sample(); return s != nil && s.State != "leader" }) {
+			x.Inconclusive("%s did not step down", l2)
+			return
+		}
 		x.NT("two-leaderships")
 	}
 	x.Step("held %d heartbeat replies to %s; partition it away", gate.HeldCount(), l)
@@ -1281,20 +1293,36 @@ func scenStaleReply(x *Ctx) {
 	rest := x.others(l)
 	v := pick(r, rest)
 	abc := minus(rest, []string{v})
+	// variant "held": v's acknowledgements are delayed across the two leaderships.
+	// variant "match": v's acknowledgements arrive at once (the leader remembers how far v matched), and v's tail
+	// is then overwritten by the intermediate leader like everybody else's.
+	held := r.Intn(2) == 0
 	gate := simnet.NewGate()
-	x.C.Net.AddRule(&simnet.Rule{Name: "hold-acks-of-v", Gate: gate, Match: func(m *mon.Msg, reply bool) bool {
-		return reply && m.Kind == "AE" && m.From == l && m.To == v && m.Term == t1 && len(m.Ents) > 0
-	}})
-	x.Step("leadership 1 (%s, term %d): entries reach only %s, whose acknowledgements are delayed", l, t1, v)
+	if held {
+		x.C.Net.AddRule(&simnet.Rule{Name: "hold-acks-of-v", Gate: gate, Match: func(m *mon.Msg, reply bool) bool {
+			return reply && m.Kind == "AE" && m.From == l && m.To == v && m.Term == t1 && len(m.Ents) > 0
+		}})
+		x.Step("leadership 1 (%s, term %d): entries reach only %s, whose acknowledgements are delayed", l, t1, v)
+	} else {
+		x.Step("leadership 1 (%s, term %d): entries reach only %s, which acknowledges them", l, t1, v)
+	}
 	x.split([]string{l, v}, abc)
 	n1 := 5 + r.Intn(4)
 	w1 := x.WritesAsync(2, l, n1, 150*time.Millisecond)
-	if !x.WaitFor(2*time.Second, func() bool { return gate.HeldCount() > 0 }) {
+	if held {
+		if !x.WaitFor(2*time.Second, func() bool { return gate.HeldCount() > 0 }) {
+			w1()
+			x.Inconclusive("no acknowledgement was held")
+			return
+		}
+		time.Sleep(20 * time.Millisecond)
+	} else {
 		w1()
-		x.Inconclusive("no acknowledgement was held")
-		return
+		if !x.WaitFor(2*time.Second, func() bool { s := x.C.Node(l).Sample(); return s != nil && s.Match[v] >= s.Commit+uint64(n1) }) {
+			x.Inconclusive("%s did not acknowledge the tail", v)
+			return
+		}
 	}
-	time.Sleep(20 * time.Millisecond)
 	x.Step("isolate %s and %s; the other three elect a leader and commit different entries", l, v)
 	x.split([]string{l}, []string{v}, abc)
 	w1()
@@ -1304,13 +1332,29 @@ func scenStaleReply(x *Ctx) {
 		return
 	}
 	x.Writes(3, l2, 1+r.Intn(2), time.Second)
-	x.Step("%s rejoins (not %s), catches up and is re-elected", l, v)
-	x.split([]string{v}, minus(all, []string{v}))
+	caught := []string{l}
+	if held {
+		x.Step("%s rejoins (not %s), catches up and is re-elected", l, v)
+		x.split([]string{v}, minus(all, []string{v}))
+	} else {
+		x.Step("%s and %s rejoin, their tails are overwritten; %s is re-elected", l, v, l)
+		x.C.Net.ClearLinks()
+		caught = []string{l, v}
+	}
 	if !x.WaitFor(3*time.Second, func() bool {
-		a, b := x.C.Node(l).Sample(), x.C.Node(l2).Sample()
-		return a != nil && b != nil && b.State == "leader" && a.Term == b.Term && a.Commit >= b.Commit
+		b := x.C.Node(l2).Sample()
+		if b == nil || b.State != "leader" {
+			return false
+		}
+		for _, id := range caught {
+			a := x.C.Node(id).Sample()
+			if a == nil || a.Term != b.Term || a.Commit < b.Commit {
+				return false
+			}
+		}
+		return true
 	}) {
-		x.Inconclusive("%s did not catch up", l)
+		x.Inconclusive("%v did not catch up", caught)
 		return
 	}
 	quiet := x.C.Net.AddRule(&simnet.Rule{Name: "only-l-campaigns", Drop: true, Match: func(m *mon.Msg, reply bool) bool {
@@ -1324,7 +1368,11 @@ func scenStaleReply(x *Ctx) {
 	}
 	x.C.Net.RemoveRule(quiet)
 	b := pick(r, minus(abc, []string{l2}))
-	x.Step("leadership 2 of %s: it reaches only %s; writes, then the delayed acknowledgements of %s arrive", l, b, v)
+	if held {
+		x.Step("leadership 2 of %s: it reaches only %s; writes, then the delayed acknowledgements of %s arrive", l, b, v)
+	} else {
+		x.Step("leadership 2 of %s: it reaches only %s; writes", l, b)
+	}
 	var groups [][]string
 	groups = append(groups, []string{l, b})
 	for _, id := range minus(all, []string{l, b}) {
@@ -1335,7 +1383,11 @@ func scenStaleReply(x *Ctx) {
 	time.Sleep(time.Duration(20+r.Intn(30)) * time.Millisecond)
 	gate.Release()
 	w2()
-	x.NT("released-in-second-leadership")
+	if held {
+		x.NT("released-in-second-leadership")
+	} else {
+		x.NT("second-leadership-after-acknowledged-tail")
+	}
 	x.Step("isolate %s and %s; the other three elect a leader and write", l, b)
 	x.split([]string{l, b}, minus(all, []string{l, b}))
 	if l3 := x.C.WaitLeaderAmong(minus(all, []string{l, b}), 6*time.Second); l3 != "" {
@@ -1400,3 +1452,140 @@ func scenBounceRestore(x *Ctx) {
 }
 
 func init() { Registry["w2.bouncerestore"] = scenBounceRestore }
+
+// ---------------------------------------------------------------- C16: a follower that is busy restoring a snapshot still honours its leader
+
+// scenDisruptRestore: follower F restores a large snapshot (Restore lasts many election timeouts) while the
+// sender crashes and X takes over. X then leads in prompt contact with F (F answers every heartbeat, with a
+// rejection while it restores). The restarted old leader, which does not hear X (one-way cut), campaigns at F.
+func scenDisruptRestore(x *Ctx) {
+	r := x.R
+	_, a, ok := x.startStatic(3)
+	if !ok {
+		return
+	}
+	thr := x.C.Opts.FSM.SnapThreshold
+	if thr <= 0 || time.Duration(x.C.Opts.FSM.RestoreUs)*time.Microsecond < 8*x.ET() {
+		x.Inconclusive("needs snapshots and a Restore of at least 8 election timeouts")
+		return
+	}
+	f := pick(r, x.others(a))
+	xn := minus(x.others(a), []string{f})[0]
+	x.Writes(1, a, 2, time.Second)
+	x.Step("isolate follower %s; the others move past a snapshot", f)
+	x.C.Net.Partition([]string{f}, x.others(f))
+	x.Writes(2, a, 2*thr+3, time.Second)
+	if !x.WaitFor(3*time.Second, func() bool { s := x.C.Node(a).Sample(); return s != nil && s.LII > 2 }) {
+		x.Inconclusive("leader took no snapshot")
+		return
+	}
+	var sawIS atomic.Int32
+	x.C.Net.AddRule(&simnet.Rule{Name: "watch-install", Match: func(m *mon.Msg, reply bool) bool {
+		if !reply && m.Kind == "IS" && m.To == f && m.Done && m.NBytes > 0 {
+			sawIS.Add(1)
+		}
+		return false
+	}})
+	x.Step("heal: %s starts restoring; crash the sender %s; %s takes over", f, a, xn)
+	x.C.Net.ClearLinks()
+	if !x.WaitFor(1500*time.Millisecond, func() bool { return sawIS.Load() > 0 }) {
+		x.Inconclusive("no snapshot was sent")
+		return
+	}
+	time.Sleep(5 * time.Millisecond)
+	x.C.Node(a).Crash("c16-restore")
+	x.C.Node(a).WaitDown(time.Second)
+	if x.C.WaitLeaderAmong([]string{xn}, 5*x.ET()+time.Second) == "" {
+		x.Inconclusive("%s did not take over", xn)
+		return
+	}
+	time.Sleep(2 * x.ET())
+	s := x.C.Node(xn).Sample()
+	if s == nil || s.State != "leader" {
+		x.Inconclusive("%s is not a stable leader", xn)
+		return
+	}
+	term := s.Term
+	x.C.ResetStall()
+	x.C.Net.CutOneWay([]string{xn}, []string{a})
+	x.M.Emit(mon.Event{Kind: mon.KPhase, Str: fmt.Sprintf("c16.start|%s|%s|%d|%d", strings.Join([]string{xn, f}, ","), xn, term, int64(x.ET()))})
+	x.Step("window: leader %s term %d in contact with restoring %s; restart %s, which does not hear the leader", xn, term, f, a)
+	if err := x.C.Node(a).Restart(); err != nil {
+		x.Note("restart of %s failed: %v", a, err)
+	}
+	time.Sleep(4 * x.ET())
+	x.M.Emit(mon.Event{Kind: mon.KPhase, Str: fmt.Sprintf("c16.end|%d", x.C.StallMaxNs.Load())})
+	x.NT("c16-window")
+	x.NT("c16-restoring-follower")
+	x.C.Net.Heal()
+}
+
+func init() { Registry["w2.disruptrestore"] = scenDisruptRestore }
+
+// ---------------------------------------------------------------- C15: a restarted voter with a high term and a short log
+
+// scenHighTermRestart: voter A lingers as a candidate (its vote requests are lost) until its term is several
+// terms ahead, is cut off while the other two elect a leader in a lower term and write, and is restarted
+// (persisted high term, short log, sends prevotes only). Then the leader goes down and the faults stop: the
+// remaining majority is {A: high term, short log; C: lower term, complete log}. C must learn A's term from the
+// rejections of its prevotes, or no leader is ever elected.
+func scenHighTermRestart(x *Ctx) {
+	r := x.R
+	all, l0, ok := x.startStatic(3)
+	if !ok {
+		return
+	}
+	x.Writes(1, l0, 3, time.Second)
+	a := pick(r, x.others(l0))
+	c := minus(x.others(l0), []string{a})[0]
+	t0 := x.C.Node(l0).R().Status().Term
+	x.C.Net.AddRule(&simnet.Rule{Name: "lose-a-vote-requests", Drop: true, Match: func(m *mon.Msg, reply bool) bool {
+		return !reply && m.Kind == "RV" && !m.Prevote && m.From == a
+	}})
+	quietC := x.C.Net.AddRule(&simnet.Rule{Name: "c-does-not-campaign", Drop: true, Match: func(m *mon.Msg, reply bool) bool {
+		return !reply && m.Kind == "RV" && m.From == c
+	}})
+	x.Step("crash leader %s; %s wins prevotes of %s but its vote requests are lost: its term runs ahead", l0, a, c)
+	x.C.Node(l0).Crash("highterm")
+	x.C.Node(l0).WaitDown(time.Second)
+	ahead := uint64(3 + r.Intn(3))
+	if !x.WaitFor(time.Duration(ahead+6)*2*x.ET()+time.Second, func() bool { s := x.C.Node(a).Sample(); return s != nil && s.Term >= t0+ahead }) {
+		x.Inconclusive("%s did not run ahead", a)
+		return
+	}
+	x.Step("cut %s off; restart %s; %s and %s elect a leader in a lower term and write", a, l0, l0, c)
+	x.C.Net.Partition([]string{a}, []string{l0, c})
+	x.C.Net.RemoveRule(quietC)
+	x.C.Node(l0).Restart()
+	b := x.C.WaitLeaderAmong([]string{l0, c}, 6*x.ET()+2*time.Second)
+	if b == "" {
+		x.Inconclusive("no leader among %s and %s", l0, c)
+		return
+	}
+	if x.Writes(2, b, 3+r.Intn(3), time.Second) == 0 {
+		x.Inconclusive("no write acknowledged")
+		return
+	}
+	ta := uint64(0)
+	if s := x.C.Node(a).Sample(); s != nil {
+		ta = s.Term
+	}
+	tb := x.C.Node(b).R().Status().Term
+	if ta <= tb {
+		x.Inconclusive("%s (term %d) is not ahead of the leader (term %d)", a, ta, tb)
+		return
+	}
+	x.Step("restart %s (term %d, short log); crash leader %s (term %d); heal: no more faults", a, ta, b, tb)
+	x.C.Node(a).Crash("highterm")
+	x.C.Node(a).WaitDown(time.Second)
+	x.C.Node(a).Restart()
+	x.C.Node(b).Crash("highterm")
+	x.C.Node(b).WaitDown(time.Second)
+	x.C.Net.Heal()
+	x.NT("high-term-short-log-restarted")
+	_ = all
+	x.KeepDown = map[string]bool{b: true} // a majority is running; the third voter stays down
+	x.finishDirected()
+}
+
+func init() { Registry["w2.hightermrestart"] = scenHighTermRestart }
